@@ -73,11 +73,15 @@ func (w *world) refChunks() []string {
 }
 
 func (w *world) oracleC20(v *vlib.Verdict) {
-	if len(w.b.Ups) != 1 {
+	wantUps := 1
+	if w.p.Prior {
+		wantUps = 2
+	}
+	if len(w.b.Ups) != wantUps {
 		v.Fail("C20.setup", "streams", "broker saw %d upstreams", len(w.b.Ups))
 		return
 	}
-	u := w.b.Ups[0]
+	u := w.b.Ups[wantUps-1]
 	chunks := append([]*sim.ChunkRec{}, u.Chunks...)
 	sort.SliceStable(chunks, func(i, j int) bool { return chunks[i].Seq < chunks[j].Seq })
 	// (f) no chunk without a data point
